@@ -104,12 +104,12 @@ impl<R> Drop for NotifyOnDrop<R> {
 /// connection is parsed starting right after this one's body even if the application did not
 /// read the body to its end.
 struct DrainOnDrop<R: Read> {
-    inner: R,
+    inner: Decoder<R>,
     finished: bool,
 }
 
 impl<R: Read> DrainOnDrop<R> {
-    fn new(inner: R) -> Self {
+    fn new(inner: Decoder<R>) -> Self {
         DrainOnDrop {
             inner,
             finished: false,
@@ -119,9 +119,15 @@ impl<R: Read> DrainOnDrop<R> {
 
 impl<R: Read> Read for DrainOnDrop<R> {
     fn read(&mut self, buf: &mut [u8]) -> io::Result<usize> {
+        if self.finished {
+            // the last chunk has been consumed: what follows belongs to the next request
+            return Ok(0);
+        }
         let res = self.inner.read(buf);
         match res {
-            Ok(0) if !buf.is_empty() => self.finished = true,
+            // zero bytes mean the end of the body, unless the decoder is inside a chunk (which
+            // is what a read into an empty buffer looks like)
+            Ok(0) if self.inner.remaining_chunks_size().is_none() => self.finished = true,
             Err(_) => self.finished = true,
             _ => (),
         }
